@@ -237,8 +237,9 @@ def check_decoder(F, rep, ent):
         msgs = []
         for e, est in errs:
             p = e.args[4][0]
-            if p.op == "call" and p.args[0] == "convert::From::from" and p.args[2][0].op == "payload" and p.args[2][0].args[1] == "Err" \
-                    and p.args[2][0].args[0].op == "call" and p.args[2][0].args[0].args[0] in ENDIAN_READS:
+            if p.op == "call" and p.args[0] == "convert::From::from":
+                p = p.args[2][0]
+            if p.op == "payload" and p.args[1] == "Err" and p.args[0].op == "call" and p.args[0].args[0] in ENDIAN_READS:
                 continue
             if vg and p.op == "agg" and p.args[3] == "UnsupportedVersion":
                 continue
